@@ -86,6 +86,21 @@ class FISTA(BaseSolver):
             Xw = X @ w
             z = w + (t_old - 1.) / t_new * (w - w_old)
 
+            # the optimality of the iterate w is measured with the gradient at w
+            # (``grad`` above was evaluated at the previous extrapolated point z)
+            if X_is_sparse:
+                if hasattr(datafit, "gradient_sparse"):
+                    grad = datafit.gradient_sparse(
+                        X.data, X.indptr, X.indices, y, Xw)
+                else:
+                    grad = construct_grad_sparse(
+                        X.data, X.indptr, X.indices, y, w, Xw, datafit, all_features)
+            else:
+                if hasattr(datafit, "gradient"):
+                    grad = datafit.gradient(X, y, Xw)
+                else:
+                    grad = construct_grad(X, y, w, Xw, datafit, all_features)
+
             if self.opt_strategy == "subdiff":
                 opt = penalty.subdiff_distance(w, grad, all_features)
             elif self.opt_strategy == "fixpoint":
